@@ -183,6 +183,39 @@ func Load(cfg BuildCfg, allDeps bool) (*Prog, error) {
 		}
 	}
 	p.AllFns = ssautil.AllFunctions(prog)
+	// AllFunctions is reachability based: add every method of every named type
+	// declared in the repository so that rules see unreferenced methods too.
+	var addFn func(fn *ssa.Function)
+	addFn = func(fn *ssa.Function) {
+		if fn == nil || p.AllFns[fn] {
+			return
+		}
+		p.AllFns[fn] = true
+		for _, an := range fn.AnonFuncs {
+			addFn(an)
+		}
+	}
+	for _, sp := range prog.AllPackages() {
+		if !isRepoPath(sp.Pkg.Path()) {
+			continue
+		}
+		for _, mem := range sp.Members {
+			switch m := mem.(type) {
+			case *ssa.Function:
+				addFn(m)
+			case *ssa.Type:
+				for _, T := range []types.Type{m.Type(), types.NewPointer(m.Type())} {
+					if types.IsInterface(T) {
+						continue
+					}
+					ms := prog.MethodSets.MethodSet(T)
+					for i := 0; i < ms.Len(); i++ {
+						addFn(prog.MethodValue(ms.At(i)))
+					}
+				}
+			}
+		}
+	}
 	for fn := range p.AllFns {
 		p.fnIndex[fn.String()] = fn
 		if p.IsRepoFn(fn) {
